@@ -1019,6 +1019,14 @@ class SubsFamily(ReorgFamily):
 
     def gen(self, rng, tier, prop):
         k, plan = self.base(rng, tier)
+        if rng.random() < 0.35:
+            # the history reads behind status computations are slow - those of notifications, of subscribe
+            # requests, or all - and tend to come back right after a block-processor job has completed
+            k['stall_boost'] = ('read_history', rng.choice([0.4, 0.8]),
+                                rng.choice(['ElectrumX.notify', 'RPCSession', '']),
+                                rng.choice(['release', 'timed']))
+            if rng.random() < 0.5:
+                k['stall_p'] = 0.0
         nclients = rng.randint(1, 3)
         for c in range(nclients):
             plan.append(dict(op='c_hsub', c=c) if rng.random() < 0.6 else dict(op='c_connect', c=c))
